@@ -148,6 +148,7 @@ func c13EqualFormatFirst(ctx *core.Ctx, r *core.Report) {
 	c13KeyValidEveryElement(ctx, r)
 	c13RowNumbersNonNegative(ctx, r)
 	c13SourceChooseCannotFail(ctx, r)
+	hookTestedIsHookCalled(ctx, r)
 	c13LiteralScanStopsAtEnd(ctx, r)
 	c13HandlersKnowTheirNode(ctx, r)
 	c13ProbeHasNoSelection(ctx, r)
